@@ -4,6 +4,8 @@
      <side>.run bc target ppem scale composite nOut
                 nG (ox oy cx cy ux uy on)*nG   nT (ox oy cx cy)*nT   nE e*nE   nC c*nC   nOps (op imm)*nOps
                 [nPrep (op imm)*nPrep]
+   The cvt list holds FONT UNITS: each machine scales it the way its code base does at size setup
+   (`HintStep.cvtSetup`, `FtStep.cvtSetup`).
    With a prep list the prep runs first (empty glyph zone, `bc` ignored) and the glyph program starts in
    the state `startGlyph` derives from the prep's final state and the target.
    `target`: 0 mono, 1 normal, 2 light, 3 lcd, 4 vertical lcd (read by GETINFO only).
@@ -84,8 +86,16 @@ def parse (xs : List Int) : Option Job :=
     some ⟨initial bc target ppem scale composite g t (e.map Int.toNat) c, nOut.toNat, o, pr, target⟩
   | _ => none
 
+def skCvt (s : St) : R St := do
+  let c ← ofOpt (s.cvt.mapM fun u => HintStep.cvtSetup u s.scale)
+  pure { s with cvt := c }
+
+def ftCvt (s : St) : St := { s with cvt := s.cvt.map fun u => FtStep.cvtSetup u s.scale }
+
 /-- prep (if any) then the glyph program, skrifa. -/
-def runSk (j : Job) : R St :=
+def runSk (j0 : Job) : R St := do
+  let st ← skCvt j0.st
+  let j := { j0 with st := st }
   match j.prep with
   | none => HintStep.run j.ops j.st
   | some pr => do
@@ -93,7 +103,8 @@ def runSk (j : Job) : R St :=
     HintStep.run j.ops (HintStep.startGlyph p (j.target ≠ 0) j.st.glyph j.st.ends)
 
 /-- prep (if any) then the glyph program, FreeType. -/
-def runFt (j : Job) : R St :=
+def runFt (j0 : Job) : R St :=
+  let j := { j0 with st := ftCvt j0.st }
   match j.prep with
   | none => FtStep.run j.ops j.st
   | some pr => do
@@ -131,7 +142,8 @@ def lockstep : Nat → List (Int × Int) → St → St → String
 
 def handle (cmd : String) (xs : List Int) : Option String :=
   match cmd with
-  | "rng.run" => (parse xs).map fun j =>
+  | "rng.run" => (parse xs).map fun j0 =>
+      let j := { j0 with st := ftCvt j0.st }
       match j.prep with
       | none => lockstep 0 j.ops j.st j.st
       | some pr =>
@@ -143,6 +155,14 @@ def handle (cmd : String) (xs : List Int) : Option String :=
               (FtStep.startGlyph b (j.target ≠ 0) j.st.glyph j.st.ends)
           else "prep 0 0"
         | _, _ => "prep 0 0"
+  -- the scan-control flag after the run (`1` / `0`): observable as `FT_OUTLINE_IGNORE_DROPOUTS` on the
+  -- FreeType side, in the retained graphics state of the hinting instance on the skrifa side
+  | "sk.scan" => (parse xs).map fun j => match runSk j with
+      | .ok s => if s.scanControl then "1" else "0"
+      | .error e => e
+  | "ft.scan" => (parse xs).map fun j => match runFt j with
+      | .ok s => if s.scanControl then "1" else "0"
+      | .error e => e
   | "sk.run" => (parse xs).map fun j => render j.nOut (runSk j)
   | "ft.run" => (parse xs).map fun j => render j.nOut (runFt j)
   | _ => none
